@@ -7,12 +7,15 @@ package keeper
 // ---- views of the oracle store ---------------------------------------------------------------------
 //@ spec vstatus(s Store, v Addr) types.ValidatorStatus = has(s, types.ValidatorStatusStoreKey(v)) ? dec(types.ValidatorStatus, s[types.ValidatorStatusStoreKey(v)]) : types.ValidatorStatus{false, TimeZero}
 //@ spec oracleParams(s Store) types.Params = has(s, types.ParamsKeyPrefix) ? dec(types.Params, s[types.ParamsKeyPrefix]) : zero(types.Params)
-//@ spec penaltyNs(s Store) Int = wrap64(oracleParams(s).InactivePenaltyDuration)
+// (the penalty as configured, over the integers; it fits a Duration because SetParams stores validated parameters only: F10)
+//@ spec penaltyNs(s Store) Int = oracleParams(s).InactivePenaltyDuration
 
 // C15: a validator becomes oracle-active only through Activate, and only if it is currently inactive and
 // either never was deactivated or the inactivity penalty has fully elapsed since its deactivation.
 //@ func (k Keeper) Activate
 //@ modifies Store_oracle
+// store invariant: validated parameters (SetParams is the only writer of the record)
+//@ requires oracleParams(Store_oracle).InactivePenaltyDuration <= MaxInt64
 //@ ensures err == nil <==> (!old(vstatus(Store_oracle, val)).IsActive
 //@            && (old(vstatus(Store_oracle, val)).Since == TimeZero
 //@                || old(vstatus(Store_oracle, val)).Since + old(penaltyNs(Store_oracle)) <= ctx.BlockTime()))
@@ -146,7 +149,8 @@ package keeper
 // request count, and every request after the cursor still has its record
 //@ spec wfRequests(s Store) Bool = len(s[types.RequestLastExpiredStoreKey]) == 8 && len(s[types.RequestCountStoreKey]) == 8
 //@      && reqCount(s) < MaxUint64 && lastExpired(s) <= reqCount(s)
-//@      && (forall id Int :: lastExpired(s) < id && id <= reqCount(s) ==> has(s, types.RequestStoreKey(id)))
+//@      && (forall id Int :: lastExpired(s) < id && id <= reqCount(s) ==> has(s, types.RequestStoreKey(id)) && 0 <= oreqAt(s, id).RequestHeight)
+// (expiry is stated over the integers, for EVERY value of the expiration_block_count parameter: F9)
 //@ func (k Keeper) ProcessExpiredRequests
 //@ modifies Store_oracle, Other
 //@ requires wfRequests(Store_oracle)
@@ -157,10 +161,11 @@ package keeper
 //@ ensures  forall id Int :: old(lastExpired(Store_oracle)) < id && id <= lastExpired(Store_oracle) ==> has(Store_oracle, types.ResultStoreKey(id)) && !has(Store_oracle, types.RequestStoreKey(id))
 //@ ensures  forall id Int :: id > lastExpired(Store_oracle) ==> Store_oracle[types.RequestStoreKey(id)] == old(Store_oracle)[types.RequestStoreKey(id)] && Store_oracle[types.ResultStoreKey(id)] == old(Store_oracle)[types.ResultStoreKey(id)]
 // ... and only requests whose expiration height has been reached are passed; the walk stops at the first one that has not
-//@ ensures  forall id Int :: old(lastExpired(Store_oracle)) < id && id <= lastExpired(Store_oracle) ==> wrap64(old(oreqAt(Store_oracle, id)).RequestHeight + wrap64(old(oracleParams(Store_oracle)).ExpirationBlockCount)) <= ctx.BlockHeight()
-//@ ensures  lastExpired(Store_oracle) < old(reqCount(Store_oracle)) ==> (let id = lastExpired(Store_oracle) + 1 in wrap64(old(oreqAt(Store_oracle, id)).RequestHeight + wrap64(old(oracleParams(Store_oracle)).ExpirationBlockCount)) > ctx.BlockHeight())
-//@ loop 0: invariant forall id Int :: old(lastExpired(Store_oracle)) < id && id < currentReqID ==> wrap64(old(oreqAt(Store_oracle, id)).RequestHeight + wrap64(old(oracleParams(Store_oracle)).ExpirationBlockCount)) <= ctx.BlockHeight()
-//@ loop 0: invariant expirationBlockCount == wrap64(old(oracleParams(Store_oracle)).ExpirationBlockCount)
+//@ ensures  forall id Int :: old(lastExpired(Store_oracle)) < id && id <= lastExpired(Store_oracle) ==> old(oreqAt(Store_oracle, id)).RequestHeight + old(oracleParams(Store_oracle)).ExpirationBlockCount <= ctx.BlockHeight()
+//@ ensures  lastExpired(Store_oracle) < old(reqCount(Store_oracle)) ==> (let id = lastExpired(Store_oracle) + 1 in old(oreqAt(Store_oracle, id)).RequestHeight + old(oracleParams(Store_oracle)).ExpirationBlockCount > ctx.BlockHeight())
+//@ loop 0: invariant forall id Int :: old(lastExpired(Store_oracle)) < id && id < currentReqID ==> old(oreqAt(Store_oracle, id)).RequestHeight + old(oracleParams(Store_oracle)).ExpirationBlockCount <= ctx.BlockHeight()
+//@ loop 0: invariant expirationBlockCount == old(oracleParams(Store_oracle)).ExpirationBlockCount
+//@ loop 0: invariant forall id Int :: old(lastExpired(Store_oracle)) < id && id <= lastReqID ==> 0 <= old(oreqAt(Store_oracle, id)).RequestHeight
 //@ loop 0: invariant old(lastExpired(Store_oracle)) + 1 <= currentReqID && currentReqID <= lastReqID + 1 && lastReqID == old(reqCount(Store_oracle)) && lastReqID < MaxUint64
 //@ loop 0: invariant lastExpired(Store_oracle) == currentReqID - 1 && len(Store_oracle[types.RequestLastExpiredStoreKey]) == 8 && Store_oracle[types.RequestCountStoreKey] == old(Store_oracle)[types.RequestCountStoreKey]
 //@ loop 0: invariant Store_oracle[types.PendingResolveListStoreKey] == old(Store_oracle)[types.PendingResolveListStoreKey]
@@ -314,5 +319,5 @@ package keeper
 // ---- C02/C14: the only writer of the parameter record stores validated parameters only --------------------------
 //@ func (k Keeper) SetParams
 //@ modifies Store_oracle
-//@ ensures err == nil ==> Store_oracle == store(old(Store_oracle), types.ParamsKeyPrefix, enc(p)) && p.OracleRewardPercentage <= 100 && 1 <= p.SamplingTryCount && p.SamplingTryCount <= MaxInt64
+//@ ensures err == nil ==> Store_oracle == store(old(Store_oracle), types.ParamsKeyPrefix, enc(p)) && p.OracleRewardPercentage <= 100 && 1 <= p.SamplingTryCount && p.SamplingTryCount <= MaxInt64 && p.InactivePenaltyDuration <= MaxInt64
 //@ ensures err != nil ==> Store_oracle == old(Store_oracle)
